@@ -32,10 +32,17 @@ import (
 //	contract  C  = $c07pay, a kernel contract registered by this driver that pays out of its own funds
 //	funds     one confirmed transaction gives every owner above several outputs
 const (
-	payName   = "$c07pay"
-	outsPer   = 4
-	outAmount = 10
+	payName      = "$c07pay"
+	outsPer      = 4
+	outAmount    = 10
+	bankPart     = 1000000 // what the bank keeps aside for each transaction that is going to be marked
+	markedBucket = "c07kv"
+	markedKey    = "mk" // written by world.kmark
 )
+
+// markHeights: the relation of the height of the block a transaction arrives in to the effective height of the
+// mark on a transaction it refers to (spec/TxAuth.tla: MarkHeights).
+var markHeights = []string{"above", "at", "below"}
 
 type utxoRef struct {
 	txid []byte
@@ -55,13 +62,20 @@ type world struct {
 	key   map[string]*fx.Key
 	acct  map[string]string
 	outs  map[string][]utxoRef // abstract owner -> its funded outputs
-	mouts map[string][]utxoRef // ... -> its outputs of the transaction the regulator marked (Ledger.UpdateBlockChainData)
-	fund  *pb.Transaction
-	mfund *pb.Transaction
-	pay   *preExecd // $c07pay.pay pre-executed once (its inputs are outputs of C)
-	vprog *preExecd // a harmless $vprog call with a read and a write
-	seq   int64
-	miner *fx.Key
+	mouts map[string][]utxoRef // ... -> its outputs of the transaction the regulator marked (Ledger.UpdateBlockChainData), effective height below the next block's
+	// the same for every relation of the NEXT block's height (the peer blocks of the block ops) to the effective
+	// height of the mark: "above" (next height > effective height; = mouts), "at" (equal), "below" (smaller)
+	moutsAt map[string]map[string][]utxoRef
+	mfunds  map[string]*pb.Transaction
+	meff    map[string]int64
+	fund    *pb.Transaction
+	mfund   *pb.Transaction
+	kmark   *pb.Transaction // wrote the key c07kv/mk; the block ops mark it on their copy of the chain (block.go: markKeyWriter)
+	mread   *preExecd       // a $vprog call that reads that key (its read set names the version kmark wrote) and writes another
+	pay     *preExecd       // $c07pay.pay pre-executed once (its inputs are outputs of C)
+	vprog   *preExecd       // a harmless $vprog call with a read and a write
+	seq     int64
+	miner   *fx.Key
 }
 
 func payRun(ctx contract.KContext) (*contract.Response, error) {
@@ -384,6 +398,10 @@ func newWorld(name string) (*world, error) {
 			total -= outAmount
 		}
 	}
+	for range markHeights { // one output of the bank per transaction that is going to be marked
+		ftx.TxOutputs = append(ftx.TxOutputs, &protos.TxOutput{ToAddr: []byte(bank.Address), Amount: big.NewInt(bankPart).Bytes()})
+		total -= bankPart
+	}
 	ftx.TxOutputs = append(ftx.TxOutputs, &protos.TxOutput{ToAddr: []byte(bank.Address), Amount: big.NewInt(total).Bytes()})
 	if ftx, err = honestTx(ftx, bank, []*fx.Key{bank}); err != nil {
 		return nil, err
@@ -405,39 +423,77 @@ func newWorld(name string) (*world, error) {
 			off++
 		}
 	}
-	// a second funding transaction, confirmed and then marked by the regulator's ledger call
-	mtx := &pb.Transaction{Version: 3, Nonce: "c07-mfund", Timestamp: 3, Desc: []byte("mfund")}
-	mtx.TxInputs = []*protos.TxInput{{RefTxid: ftx.Txid, RefOffset: off, FromAddr: []byte(bank.Address), Amount: big.NewInt(total).Bytes()}}
-	for _, o := range owners[:len(owners)-1] { // not the contract: its pre-executed payment must not refer to the marked transaction
-		for i := 0; i < outsPer; i++ {
-			mtx.TxOutputs = append(mtx.TxOutputs, &protos.TxOutput{ToAddr: []byte(w.name(o)), Amount: big.NewInt(outAmount).Bytes()})
-			total -= outAmount
+	// three more funding transactions, confirmed in ONE block and then marked by the regulator's ledger call with
+	// effective heights below / at / above the height of the next block (the block ops build the next block):
+	// checkRelyOnMarkedTxid lets a reference pass iff the referring transaction's block is not higher than that
+	bankOff := off // ftx: the bank's three change outputs follow the owners' outputs
+	mtxs := map[string]*pb.Transaction{}
+	for j, mh := range markHeights {
+		mtx := &pb.Transaction{Version: 3, Nonce: "c07-mfund-" + mh, Timestamp: 3 + int64(j), Desc: []byte("mfund " + mh)}
+		mtx.TxInputs = []*protos.TxInput{{RefTxid: ftx.Txid, RefOffset: bankOff + int32(j), FromAddr: []byte(bank.Address), Amount: big.NewInt(bankPart).Bytes()}}
+		left := int64(bankPart)
+		for _, o := range owners[:len(owners)-1] { // not the contract: its pre-executed payment must not refer to a marked transaction
+			for i := 0; i < outsPer; i++ {
+				mtx.TxOutputs = append(mtx.TxOutputs, &protos.TxOutput{ToAddr: []byte(w.name(o)), Amount: big.NewInt(outAmount).Bytes()})
+				left -= outAmount
+			}
 		}
+		mtx.TxOutputs = append(mtx.TxOutputs, &protos.TxOutput{ToAddr: []byte(bank.Address), Amount: big.NewInt(left).Bytes()})
+		if mtx, err = honestTx(mtx, bank, []*fx.Key{bank}); err != nil {
+			return nil, err
+		}
+		if ok, err := node.State.VerifyTx(mtx); !ok || err != nil {
+			return nil, fmt.Errorf("fixture: funding transaction (to be marked) does not verify: %v", err)
+		}
+		if err := node.State.DoTx(mtx); err != nil {
+			return nil, fmt.Errorf("fixture: DoTx(mfund %s): %v", mh, err)
+		}
+		mtxs[mh] = mtx
 	}
-	mtx.TxOutputs = append(mtx.TxOutputs, &protos.TxOutput{ToAddr: []byte(bank.Address), Amount: big.NewInt(total).Bytes()})
-	if mtx, err = honestTx(mtx, bank, []*fx.Key{bank}); err != nil {
+	// ... and a transaction that writes a key: the block ops whose entry reads that key mark it on their own copy of
+	// the chain after the copy has read the key once (marking erases the write set in the ledger: only a node that
+	// has the version in its cache - one that was running when the regulator's call came - can still read it)
+	kj, _ := json.Marshal([]fx.VOp{{"put", markedBucket, markedKey, "mv"}})
+	kpe, err := preExec(node, bank.Address, nil, []call{{fx.VProgName, "run", map[string][]byte{"prog": kj}}})
+	if err != nil {
+		return nil, fmt.Errorf("pre-execution of the key writer: %v", err)
+	}
+	ktx := &pb.Transaction{Version: 3, Nonce: "c07-kmark", Timestamp: 9, ContractRequests: kpe.reqs,
+		TxInputsExt: xmodel.GetTxInputs(kpe.rw.RSet), TxOutputsExt: xmodel.GetTxOutputs(kpe.rw.WSet)}
+	if ktx, err = honestTx(ktx, bank, []*fx.Key{bank}); err != nil {
 		return nil, err
 	}
-	if err := node.State.DoTx(mtx); err != nil {
-		return nil, fmt.Errorf("fixture: DoTx(mfund): %v", err)
+	if ok, err := node.State.VerifyTx(ktx); !ok || err != nil {
+		return nil, fmt.Errorf("fixture: the key writer does not verify: %v", err)
 	}
+	if err := node.State.DoTx(ktx); err != nil {
+		return nil, fmt.Errorf("fixture: DoTx(key writer): %v", err)
+	}
+	w.kmark = ktx
 	if err := w.mine(); err != nil {
 		return nil, err
 	}
-	if err := node.Ledger.UpdateBlockChainData(hex.EncodeToString(mtx.Txid), "00ff", "", "", 1); err != nil {
-		return nil, fmt.Errorf("fixture: UpdateBlockChainData: %v", err)
-	}
-	if q, err := node.Ledger.QueryTransaction(mtx.Txid); err != nil || q.GetModifyBlock() == nil || !q.ModifyBlock.Marked {
-		return nil, fmt.Errorf("fixture: the marked transaction does not read back as marked: %v", err)
-	}
-	w.mfund = mtx
-	off = 0
-	for _, o := range owners[:len(owners)-1] {
-		for i := 0; i < outsPer; i++ {
-			w.mouts[o] = append(w.mouts[o], utxoRef{mtx.Txid, off, big.NewInt(outAmount).Bytes()})
-			off++
+	next := node.Ledger.GetMeta().TrunkHeight + 1
+	w.moutsAt, w.mfunds, w.meff = map[string]map[string][]utxoRef{}, mtxs, map[string]int64{"above": next - 1, "at": next, "below": next + 1}
+	for _, mh := range markHeights {
+		mtx := mtxs[mh]
+		if err := node.Ledger.UpdateBlockChainData(hex.EncodeToString(mtx.Txid), "00ff", "", "", w.meff[mh]); err != nil {
+			return nil, fmt.Errorf("fixture: UpdateBlockChainData: %v", err)
+		}
+		q, err := node.Ledger.QueryTransaction(mtx.Txid)
+		if err != nil || q.GetModifyBlock() == nil || !q.ModifyBlock.Marked || q.ModifyBlock.EffectiveHeight != w.meff[mh] {
+			return nil, fmt.Errorf("fixture: the marked transaction (%s) does not read back as marked with its effective height: %v", mh, err)
+		}
+		w.moutsAt[mh] = map[string][]utxoRef{}
+		off = 0
+		for _, o := range owners[:len(owners)-1] {
+			for i := 0; i < outsPer; i++ {
+				w.moutsAt[mh][o] = append(w.moutsAt[mh][o], utxoRef{mtx.Txid, off, big.NewInt(outAmount).Bytes()})
+				off++
+			}
 		}
 	}
+	w.mfund, w.mouts = mtxs["above"], w.moutsAt["above"]
 	if _, err := w.fixtureRules(); err != nil {
 		return nil, err
 	}
@@ -451,6 +507,19 @@ func newWorld(name string) (*world, error) {
 	}
 	if len(w.pay.urw.Rset) != 1 || string(w.pay.urw.Rset[0].FromAddr) != payName {
 		return nil, fmt.Errorf("fixture: %s.pay selected %d inputs", payName, len(w.pay.urw.Rset))
+	}
+	mj, _ := json.Marshal([]fx.VOp{{"get", markedBucket, markedKey}, {"put", markedBucket, "mkw", "v"}})
+	if w.mread, err = preExec(node, k1.Address, nil, []call{{fx.VProgName, "run", map[string][]byte{"prog": mj}}}); err != nil {
+		return nil, fmt.Errorf("pre-execution of the read of the marked key: %v", err)
+	}
+	named := false
+	for _, in := range xmodel.GetTxInputs(w.mread.rw.RSet) {
+		if in.Bucket == markedBucket && string(in.Key) == markedKey && string(in.RefTxid) == string(w.kmark.Txid) {
+			named = true
+		}
+	}
+	if !named {
+		return nil, fmt.Errorf("fixture: the read set of the marked-key reader does not name the transaction that wrote the key")
 	}
 	pj, _ := json.Marshal([]fx.VOp{{"get", "c07kv", "r"}, {"put", "c07kv", "w", "v"}})
 	if w.vprog, err = preExec(node, k1.Address, nil, []call{{fx.VProgName, "run", map[string][]byte{"prog": pj}}}); err != nil {
